@@ -50,6 +50,12 @@ fn write_replay(env: &Env, prop: &str, v: &CViol, no_std: bool) -> std::path::Pa
 
 /// judge the verdicts of `units` against their expectations
 pub fn judge(prop: &str, units: &[Unit], res: &CfResult) -> Vec<CViol> {
+    judge_with_drift(prop, units, res).0
+}
+
+/// violations, and rejections whose diagnostic differs from the expected one (drift, informational)
+pub fn judge_with_drift(prop: &str, units: &[Unit], res: &CfResult) -> (Vec<CViol>, Vec<String>) {
+    let mut drift: Vec<String> = vec![];
     let mut out = vec![];
     for u in units {
         let v: &Verdict = &res.verdicts[&u.id];
@@ -67,12 +73,10 @@ pub fn judge(prop: &str, units: &[Unit], res: &CfResult) -> Vec<CViol> {
                 if !u.expect_errors.is_empty() {
                     let hit = v.errors.iter().any(|(c, m)| u.expect_errors.iter().any(|e| c == e || m.contains(e.as_str())));
                     if !hit {
-                        out.push(CViol {
-                            signature: format!("{prop}|{}|rejected-for-another-reason", u.class),
-                            unit: u.clone(),
-                            expected: format!("rejected with one of: {}", u.expect_errors.join(", ")),
-                            actual: format!("rejected: {}", errs()),
-                        });
+                        // The unit IS rejected, so the property holds for it; a different diagnostic than the
+                        // one seen on the tree as received is only *drift* (reworded message, other rustc
+                        // code) and is reported in the evidence, never as a violation.
+                        drift.push(format!("{}: expected one of [{}], got: {}", u.class, u.expect_errors.join(", "), errs()));
                     }
                 }
             }
@@ -95,7 +99,7 @@ pub fn judge(prop: &str, units: &[Unit], res: &CfResult) -> Vec<CViol> {
             }
         }
     }
-    out
+    (out, drift)
 }
 
 pub fn report(
@@ -228,7 +232,7 @@ pub fn run_c08(env: &Env, tier: &str) -> i32 {
             return 2;
         }
     };
-    let mut viols = judge("C08", &units, &res);
+    let (mut viols, drift) = judge_with_drift("C08", &units, &res);
     // accept side over the whole run-time corpus: every catalogue / random declaration is a well-formed
     // declaration of the documented grammar and must be accepted (with its derive set and glue)
     let rt_decls = crate::corpus::rt_decls(env, tier);
@@ -266,7 +270,7 @@ pub fn run_c08(env: &Env, tier: &str) -> i32 {
     }
     let n_rt = rt_decls.len();
     let rule = "cases = declarations generated from the documented attribute grammar (inner-type family x sanitizers x validators with literal and expression bounds in every relative position x derive sets x flags x crate-feature set x hostile type / type-parameter names), each with at most one injected fault, paired with the verdict of an independent accept/reject predicate written from the README and the property statement; the judge is rustc (cargo check rounds with per-file attribution); for expression-valued contradictions and invalid defaults the generated #[test]s are run and must fail (and pass for consistent declarations). Non-trivial = distinct unit carrying an injected fault, a hostile name, or using at least 3 grammar features.";
-    report(env, "C08", tier, &units, &res, viols, rule, false, json!({"runtime_corpus_declarations_required_to_compile": n_rt, "runtime_corpus_declarations_rejected": rt_rejected}), t0)
+    report(env, "C08", tier, &units, &res, viols, rule, false, json!({"runtime_corpus_declarations_required_to_compile": n_rt, "runtime_corpus_declarations_rejected": rt_rejected, "rejections_with_unexpected_diagnostic": drift}), t0)
 }
 
 pub fn run_c05(env: &Env, tier: &str) -> i32 {
@@ -279,7 +283,7 @@ pub fn run_c05(env: &Env, tier: &str) -> i32 {
             return 2;
         }
     };
-    let mut viols = judge("C05", &units, &res);
+    let (mut viols, drift) = judge_with_drift("C05", &units, &res);
     // structural invariant over every function of every expansion
     let (structural, sviols) = match crate::expand::structural_scan(env, &res) {
         Ok(x) => x,
@@ -290,6 +294,8 @@ pub fn run_c05(env: &Env, tier: &str) -> i32 {
     };
     viols.extend(sviols);
     let rule = "cases = (declaration, bypass attempt) pairs from a catalogue of attacks (tuple / struct-literal construction incl. through the hidden module, field read/write, destructuring, assignment through Deref, DerefMut/AsMut/BorrowMut, mutable iteration, push/get_mut through Deref, private __sanitize__/__validate__, new_unchecked without flag / feature / unsafe, Default without default, naming a private type or its error types from outside), each paired with a control program using the legitimate API in the same shape; oracle = rustc rejects the attack with an expected error code and accepts the control. Plus a structural scan of every macro expansion (-Zunpretty=expanded parsed with syn): tuple-struct construction only inside new/try_new/unsafe fn/Clone; no &mut access to field 0; no DerefMut/AsMut/BorrowMut/IndexMut impl; new_unchecked only with flag and always unsafe. Non-trivial = distinct pair whose declaration derives the view trait the attack abuses, feature/flag and visibility cases.";
+    let mut structural = structural;
+    structural["rejections_with_unexpected_diagnostic"] = json!(drift);
     report(env, "C05", tier, &units, &res, viols, rule, false, structural, t0)
 }
 
